@@ -1800,4 +1800,169 @@ Proof.
   destruct Hi as [Hi _]. rewrite Ho in Hi. discriminate Hi.
 Qed.
 
+(* C15_zero_apps, one-step part: with no application do_use_token asks nobody, never reaches the
+   `% apps.len()` of schedule_next_application, and goes on to pass the token - whether or not the hold
+   time is over (hypotheses: the deadline of this visit is already computed and the synchronisation
+   pause is over; without them the function waits, or computes the deadline first) *)
+Lemma apps_transmit_telegram_zero f now (w : W) hp :
+  w_apps w = [] -> apps_transmit_telegram A ops f now w hp = Ok (f, w, false).
+Proof. intros H. unfold apps_transmit_telegram. rewrite H. reflexivity. Qed.
+
+Lemma do_use_token_zero_apps f (w : W) now tk fa fcd l :
+  w_apps w = [] -> f_state f = UseToken tk fa fcd -> f_last_token_time f = tk -> f_lba f = Some l ->
+  i64_ok (l + p_bits_to_time (f_p f) sync_pause_bits) = true ->
+  l + p_bits_to_time (f_p f) sync_pause_bits < now ->
+  exists w', do_use_token A ops f now w = Ok (set_st f (PassToken true first_attempt), w') /\
+             w_calls w' = w_calls w /\ w_tx w' = w_tx w /\ w_apps w' = [].
+Proof.
+  intros Ha Hst Hlt Hl Hok Hsync.
+  unfold do_use_token, assert_entry. rewrite Hst. cbn [f_state kind_of do_fn_entry state_kind_eqb bind get_use_token].
+  rewrite Hlt, Z.eqb_refl. cbn [negb bind].
+  unfold wait_synchronization_pause, lba_get_or_insert. rewrite Hl. unfold inst_add. rewrite Hok. cbn [bind].
+  destruct (Z.leb_spec now (l + p_bits_to_time (f_p f) sync_pause_bits)) as [C|_]; [lia|].
+  rewrite Hst. cbn [get_use_token bind].
+  destruct (now <? f_end_tht f).
+  - unfold set_first_cycle_done. rewrite Hst. cbn [get_use_token bind].
+    rewrite apps_transmit_telegram_zero by (cbn; exact Ha). cbn [bind].
+    unfold trans. cbn. eexists. split; [reflexivity|]. cbn. repeat split; try reflexivity. exact Ha.
+  - destruct fcd; cbn [negb bind].
+    + unfold trans. rewrite Hst. cbn. eexists. split; [reflexivity|]. cbn. repeat split; try reflexivity. exact Ha.
+    + unfold set_first_cycle_done. rewrite Hst. cbn [get_use_token bind].
+      rewrite apps_transmit_telegram_zero by (cbn; exact Ha). cbn [bind].
+      unfold trans. cbn. eexists. split; [reflexivity|]. cbn. repeat split; try reflexivity. exact Ha.
+Qed.
+
+(* ------------------------------------------------------------------------------------------ *)
+(* Which requests await a reply: every transmit entry of the call log is what the application's
+   callback returned; an application that sends through TelegramTx (hypothesis of the section below)
+   gets `expects_reply` from the regenerated table req_expects_reply                            *)
+
+Definition is_app_result (c : call) : Prop :=
+  forall i hp r, c = CallTransmit i hp r -> exists a now p a', a_tx ops a now p hp = Ok (a', r).
+
+Lemma apps_transmit_loop_results : forall k f now (w : W) hp f' w' d,
+  apps_transmit_loop A ops k f now w hp = Ok (f', w', d) ->
+  exists l, w_calls w' = w_calls w ++ l /\ Forall is_app_result l.
+Proof.
+  induction k as [|k IH]; intros f now w hp f' w' d H; cbn [apps_transmit_loop] in H.
+  - injection H as <- <- _. exists []. rewrite app_nil_r. split; [reflexivity|constructor].
+  - destruct (nth_error (w_apps w) (f_next_app f)) as [app|]; [|discriminate H].
+    destruct (app_transmit_telegram A ops f now w (f_next_app f) app hp) as [[[f1 w1] d1]| |] eqn:Ea; cbn [bind] in H; try discriminate H.
+    apply app_transmit_spec in Ea. destruct Ea as [app' [r [Htx [Hc1 _]]]].
+    assert (Hone : is_app_result (CallTransmit (f_next_app f) hp r)).
+    { intros i hp' r' E. injection E as <- <- <-. eexists; eexists; eexists; eexists. exact Htx. }
+    destruct d1.
+    + injection H as <- <- _. exists [CallTransmit (f_next_app f) hp r]. split; [exact Hc1|]. constructor; [exact Hone|constructor].
+    + destruct (schedule_next_application f1 _) as [[f2 completed]| |]; cbn [bind] in H; try discriminate H.
+      destruct completed.
+      * injection H as <- <- _. exists [CallTransmit (f_next_app f) hp r]. split; [exact Hc1|]. constructor; [exact Hone|constructor].
+      * apply IH in H. destruct H as [l [Hl Hf]]. exists (CallTransmit (f_next_app f) hp r :: l).
+        split; [rewrite Hl, Hc1, <- app_assoc; reflexivity|]. constructor; assumption.
+Qed.
+
+Lemma do_use_token_results f now (w : W) f' w' :
+  do_use_token A ops f now w = Ok (f', w') ->
+  exists l, w_calls w' = w_calls w ++ l /\ Forall is_app_result l.
+Proof.
+  unfold do_use_token. intros H.
+  destruct (assert_entry DoUseToken f); cbn [bind] in H; try discriminate H.
+  destruct (get_use_token (f_state f)) as [[[tk fa] fcd]| |]; cbn [bind] in H; try discriminate H.
+  match type of H with bind ?x _ = _ => destruct x as [[f1 w1]| |] eqn:E1 end; cbn [bind] in H; try discriminate H.
+  assert (Hc1 : w_calls w1 = w_calls w).
+  { destruct (negb _).
+    - destruct (inst_add _ _) as [e| |]; cbn [bind] in E1; try discriminate E1.
+      destruct (f_gap f).
+      + injection E1 as _ <-. reflexivity.
+      + destruct (inst_sub_dur _ _) as [e2| |]; cbn [bind] in E1; try discriminate E1. injection E1 as _ <-. reflexivity.
+    - injection E1 as _ <-. reflexivity. }
+  destruct (wait_synchronization_pause f1 now) as [[f2 wait]| |]; cbn [bind] in H; try discriminate H.
+  assert (Hnone : w_calls w' = w_calls w -> exists l, w_calls w' = w_calls w ++ l /\ Forall is_app_result l)
+    by (intros E; exists []; rewrite app_nil_r; split; [exact E|constructor]).
+  destruct wait; [injection H as _ <-; apply Hnone; exact Hc1|].
+  destruct (get_use_token (f_state f2)) as [[[tk2 fa2] fcd2]| |]; cbn [bind] in H; try discriminate H.
+  assert (Hround : forall hp tg f3 w3 d,
+    (let* f0 := set_first_cycle_done f2 in apps_transmit_telegram A ops f0 now (note A w1 tg) hp) = Ok (f3, w3, d) ->
+    (if d then Ok (f3, w3) else trans A f3 w3 (fun s => transition_pass_token s true first_attempt)) = Ok (f', w') ->
+    exists l, w_calls w' = w_calls w ++ l /\ Forall is_app_result l).
+  { intros hp tg f3 w3 d Hr Hfin. destruct (set_first_cycle_done f2) as [f0| |]; cbn [bind] in Hr; try discriminate Hr.
+    apply apps_transmit_loop_results in Hr. destruct Hr as [l [Hl Hf]]. cbn in Hl. exists l. split; [|exact Hf].
+    destruct d; [injection Hfin as _ <-; congruence|].
+    apply trans_keep in Hfin. destruct Hfin as [_ [_ [_ [_ [[Hw _] _]]]]]. congruence. }
+  destruct (now <? f_end_tht f2).
+  - match type of H with bind ?x _ = _ => destruct x as [[[f3 w3] d]| |] eqn:El end; cbn [bind] in H; try discriminate H.
+    exact (Hround _ _ _ _ _ El H).
+  - destruct (negb fcd2).
+    + match type of H with bind ?x _ = _ => destruct x as [[[f3 w3] d]| |] eqn:El end; cbn [bind] in H; try discriminate H.
+      exact (Hround _ _ _ _ _ El H).
+    + cbn [bind] in H. apply trans_keep in H. destruct H as [_ [_ [_ [_ [[Hw _] _]]]]]. apply Hnone. rewrite Hw. exact Hc1.
+Qed.
+
+Lemma poll_results f now pin (apps : list A) f' o apps' calls :
+  poll ops f now pin apps = Ok (f', o, apps', calls) -> Forall is_app_result calls.
+Proof.
+  intros H. apply poll_calls_cases in H.
+  destruct H as [[-> _]|[f3 [w3 [w' [_ [_ [Hc3 [_ [-> [_ [Hd|Hd]]]]]]]]]]]; [constructor| |].
+  - apply do_use_token_results in Hd. destruct Hd as [l [Hl Hf]]. rewrite Hl, Hc3. exact Hf.
+  - apply do_await_data_response_split in Hd.
+    destruct Hd as [a' [tk [fa [app [Es [En Hcases]]]]]].
+    destruct Hcases as [[t' [app' [Hok [_ [Hc _]]]]]|[[[Hw _] _]|[[[Hw _] _]|[app' [f4 [w4 [_ [Hc4 [_ [_ [_ Hdo]]]]]]]]]]].
+    + rewrite Hc, Hc3. constructor; [intros i hp r C; discriminate C|constructor].
+    + rewrite Hw, Hc3. constructor.
+    + rewrite Hw, Hc3. constructor.
+    + apply do_use_token_results in Hdo. destruct Hdo as [l [Hl Hf]]. rewrite Hl, Hc4, Hc3.
+      constructor; [intros i hp r C; discriminate C|exact Hf].
+Qed.
+
+Lemma run_results : forall evs f (apps : list A) f' apps' h,
+  run f apps evs = Ok (f', apps', h) -> Forall is_app_result (calls_of h).
+Proof.
+  induction evs as [|e tl IH]; intros f apps f' apps' h H; cbn [run] in H.
+  - injection H as _ _ <-. constructor.
+  - destruct (step f apps e) as [[[f1 apps1] h1]| |] eqn:Es; cbn [bind] in H; try discriminate H.
+    destruct (run f1 apps1 tl) as [[[f2 apps2] h2]| |] eqn:Er; cbn [bind] in H; try discriminate H.
+    injection H as _ _ <-. rewrite calls_of_app. apply Forall_app. split; [|exact (IH _ _ _ _ _ Er)].
+    destruct e as [now pin| | |g]; cbn [step] in Es.
+    + destruct (poll ops f now pin apps) as [[[[f3 o3] a3] c3]| |] eqn:Ep; cbn [bind] in Es; try discriminate Es.
+      injection Es as _ _ <-. rewrite calls_of_app, calls_of_map. cbn. rewrite app_nil_r. exact (poll_results _ _ _ _ _ _ _ _ Ep).
+    + destruct (set_online f); cbn [bind] in Es; try discriminate Es. injection Es as _ _ <-. constructor.
+    + destruct (set_offline f); cbn [bind] in Es; try discriminate Es. injection Es as _ _ <-. constructor.
+    + injection Es as _ _ <-. constructor.
+Qed.
+
+(* what TelegramTx computes (telegram.rs:684-704), through the regenerated table *)
+Lemma transmit_expects_reply size rq wire er : transmit size rq = Ok (wire, er) ->
+  forall da, er = Some da <->
+    exists h pdu fcb r, rq = TxData h pdu /\ h_fc h = FcRequest fcb r /\ req_expects_reply r = true /\ da = h_da h.
+Proof.
+  intros H da. destruct rq as [h pdu|d s0|]; unfold transmit in H.
+  - destruct (encode_data_in size h pdu) as [w0| |]; cbn [bind] in H; try discriminate H. injection H as _ <-.
+    unfold tx_expects_reply. split.
+    + destruct (h_fc h) as [fcb r|st ss] eqn:Efc; [|discriminate]. destruct (req_expects_reply r) eqn:Er; [|discriminate].
+      intros E. injection E as <-. exists h, pdu, fcb, r. repeat split; assumption.
+    + intros [h' [pdu' [fcb [r [E [Efc [Er ->]]]]]]]. injection E as <- <-. rewrite Efc, Er. reflexivity.
+  - destruct (Nat.ltb size 3); [discriminate H|]. injection H as _ <-.
+    split; [discriminate|]. intros [h' [pdu' [fcb [r [E _]]]]]. discriminate E.
+  - destruct (Nat.ltb size 1); [discriminate H|]. injection H as _ <-.
+    split; [discriminate|]. intros [h' [pdu' [fcb [r [E _]]]]]. discriminate E.
+Qed.
+
+Section TelegramTx.
+(* the application builds its telegram with the TelegramTx it is handed (any buffer size) *)
+Hypothesis app_uses_telegram_tx : forall a now p hp a' wire er,
+  a_tx ops a now p hp = Ok (a', Some (wire, er)) -> exists size rq, transmit size rq = Ok (wire, er).
+
+Theorem expects_reply_by_table p f0 (apps : list A) evs f apps' h i hp wire er :
+  fdl_new p = Ok f0 -> run f0 apps evs = Ok (f, apps', h) ->
+  In (CallTransmit i hp (Some (wire, er))) (calls_of h) ->
+  exists size rq, transmit size rq = Ok (wire, er) /\
+    forall da, er = Some da <->
+      exists hd pdu fcb r, rq = TxData hd pdu /\ h_fc hd = FcRequest fcb r /\ req_expects_reply r = true /\ da = h_da hd.
+Proof.
+  intros _ Hr Hin. apply run_results in Hr. rewrite Forall_forall in Hr.
+  destruct (Hr _ Hin i hp _ eq_refl) as [a [now [p' [a' Htx]]]].
+  destruct (app_uses_telegram_tx _ _ _ _ _ _ _ Htx) as [size [rq Ht]].
+  exists size, rq. split; [exact Ht|]. exact (transmit_expects_reply _ _ _ _ Ht).
+Qed.
+End TelegramTx.
+
 End Apps.
